@@ -107,6 +107,7 @@ def generate(seed, index, tier):
         case["first"] = first
         case["forms"] = [ch.choice(FORMS) for _ in pieces[1:]]
         case["noise"] = [[ch.choice(NOISE) for _ in range(ch.int(0, 2))] if ch.coin(0.5) else [] for _ in pieces[1:]]
+        case["pathobj"] = [ch.coin(0.5) for _ in range(9)]
     elif mode == "pathpath":
         k = ch.int(1, len(cmds) - 1)
         a = cmds[:k]
@@ -215,6 +216,9 @@ def execute(case, se, out, trace):
             is_seg = not isinstance(p, se.Path)
             if is_seg:
                 form = "seg"
+            elif form in ("add", "iadd") and case["pieces"][k + 1][0]["c"] == "M" and case.get("pathobj", [False] * 9)[k % 9]:
+                # a piece that begins with an absolute move may as well arrive as a Path object (extend, not parse)
+                form = form + "_path"
             out.count("op:" + form)
             la = case["pieces"][k][-1]["c"]
             fb = case["pieces"][k + 1][0]["c"]
@@ -228,6 +232,10 @@ def execute(case, se, out, trace):
                     p = p + piece
                 elif form == "iadd":
                     p += piece
+                elif form == "add_path":
+                    p = p + se.Path(piece)
+                elif form == "iadd_path":
+                    p += se.Path(piece)
                 else:
                     p.parse(piece)
                 exc = None
@@ -244,14 +252,14 @@ def execute(case, se, out, trace):
                 raise V("append-raises", [type(exc).__name__, core.exc_sig(exc)[1], la, fb, form], "%r + %r raised %r; one-shot parse of %r succeeds" % (pieces[: k + 1], piece, exc, whole))
             if not isinstance(p, se.Path):
                 raise V("append-type", [type(p).__name__, form], "result of %s is %r" % (form, type(p)))
-            if form == "add":
+            if form in ("add", "add_path"):
                 after = _snap(old)
                 ok, msg = ob.snaps_equal(before, after, rel=0.0)
                 if not ok:
                     raise V("operand-modified", [la, fb, form], "left operand of + changed: %s" % msg)
             a, b = _snap(p), _snap(ref)
             trace.ev("state", ob.kinds(p))
-            ok, msg = ob.snaps_equal(a, b, rel=1e-9)
+            ok, msg = ob.snaps_equal(a, b, rel=1e-9, skip_move_start=form.endswith("_path"))
             if not ok:
                 raise V("refinement", [la, fb, form, ob.kinds(ref)[-3:]], "after %s of %r to %r: %s ; incremental=%r one-shot=%r" % (form, piece, " ".join(pieces[: k + 1]), msg, _d(p), _d(ref)))
             out.count("probe:compared")
